@@ -61,12 +61,42 @@ def Loc.parse (s : String) : Option Loc :=
   else if s.startsWith "ctr" then (s.drop 3).toNat?.map .ctr
   else none
 
+/-- how the caller consumes a pulled chunk: everything (`all`), the first `k` elements through `next()`
+(`first k`), or one call of `Iterator::nth(k)` (`nth k`: discards `k` elements, returns the next) -/
+inductive Take where
+  | all | first (k : Nat) | nth (k : Nat)
+  deriving Repr, DecidableEq, Inhabited
+
+def Take.str : Take → String
+  | .all => "all"
+  | .first k => toString k
+  | .nth k => s!"nth:{k}"
+
+/-- how many of `a` available elements leave the chunk iterator -/
+def Take.count (k : Take) (a : Nat) : Nat :=
+  match k with
+  | .all => a
+  | .first k => min k a
+  | .nth k => min (k + 1) a
+
+/-- how many of those are discarded by the consumer itself (`nth`) rather than handed to the caller -/
+def Take.skipped (k : Take) (a : Nat) : Nat :=
+  match k with
+  | .nth k => min k a
+  | _ => 0
+
+theorem Take.skipped_le_count (k : Take) (a : Nat) : k.skipped a ≤ k.count a := by
+  cases k <;> simp [Take.skipped, Take.count] <;> omega
+
+theorem Take.count_le (k : Take) (a : Nat) : k.count a ≤ a := by
+  cases k <;> simp [Take.count] <;> omega
+
 /-- high-level operations of a thread program (FORMAT.md §1) -/
 inductive Op where
   | next | nextv
-  | chunk (n : Nat) (k : Option Nat)        -- `k = none`: consume all
+  | chunk (n : Nat) (k : Take)
   | bufnew (n : Nat)
-  | bufnext (k : Option Nat)
+  | bufnext (k : Take)
   | bufdrop
   | foreach (n : Nat) (panicAt : Option Nat)
   | enumforeach (n : Nat) (panicAt : Option Nat)
@@ -92,9 +122,9 @@ def panicStr : Option Nat → String
 
 def Op.str : Op → String
   | .next => "next" | .nextv => "nextv"
-  | .chunk n k => s!"chunk {n} {optK k}"
+  | .chunk n k => s!"chunk {n} {k.str}"
   | .bufnew n => s!"bufnew {n}"
-  | .bufnext k => s!"bufnext {optK k}"
+  | .bufnext k => s!"bufnext {k.str}"
   | .bufdrop => "bufdrop"
   | .foreach n p => s!"foreach {n}{panicStr p}"
   | .enumforeach n p => s!"enumforeach {n}{panicStr p}"
